@@ -6,6 +6,11 @@ LEVEL = 'proof'
 
 def run(ctx):
     c10.run(ctx, 'C11')
+    # the dispatcher forgets a released key through the release timer: a key whose timer does not wake the timer worker stays held,
+    # and its next press is answered with None (checked on the real worker class, virtual clock)
+    import props.c12 as c12
+    c12.install_clock()
+    c12.timer_wakeup_check(ctx)
     # list / tuple renderings of the same signal give the same answer
     import dispatch_run as dr
     import engine
